@@ -127,7 +127,10 @@ class LTLExplainer(LtlAstVisitor):
         op_intervals = explain_rise(op_signal, intervals)
         self.explanations[element.name] = intervals
 
+        # rise combines the operand at t-1 and at t with opposite polarities:
+        # explain the operand both as satisfied and as violated
         self.visit(element.children[0], [op_intervals, flag])
+        self.visit(element.children[0], [op_intervals, not flag])
 
     def visitFall(self, element, args):
         intervals = args[0]
@@ -136,7 +139,10 @@ class LTLExplainer(LtlAstVisitor):
         op_intervals = explain_fall(op_signal, intervals)
         self.explanations[element.name] = intervals
 
+        # fall combines the operand at t-1 and at t with opposite polarities:
+        # explain the operand both as satisfied and as violated
         self.visit(element.children[0], [op_intervals, flag])
+        self.visit(element.children[0], [op_intervals, not flag])
 
     def visitNot(self, element, args):
         intervals = args[0]
